@@ -31,6 +31,8 @@ pub enum MVal {
     S(String),
     /// the float n + 0.5 (never integral, so every rendering agrees on its text)
     F(i32),
+    /// a typed `emit::Level` (what the level macros attach as `lvl`); not a string
+    Lvl(usize),
 }
 
 impl MVal {
@@ -40,6 +42,7 @@ impl MVal {
             MVal::B(b) => b.to_string(),
             MVal::S(s) => s.clone(),
             MVal::F(n) => format!("{}", *n as f64 + 0.5),
+            MVal::Lvl(l) => LEVEL_NAMES[*l].to_string(),
         }
     }
 
@@ -54,6 +57,7 @@ impl MVal {
             (Ty::Str, MVal::S(s)) | (Ty::String, MVal::S(s)) => Some(s.clone()),
             (Ty::F64, MVal::F(_)) => Some(self.text()),
             (Ty::Level, MVal::S(s)) => level_of_text(s).map(|l| LEVEL_NAMES[l].to_string()),
+            (Ty::Level, MVal::Lvl(l)) => Some(LEVEL_NAMES[*l].to_string()),
             _ => None,
         }
     }
@@ -97,6 +101,7 @@ impl ToValue for MVal {
             MVal::B(b) => Value::from(*b),
             MVal::S(s) => Value::from(s.as_str()),
             MVal::F(n) => Value::from(*n as f64 + 0.5),
+            MVal::Lvl(l) => Value::from_any(&REAL_LEVELS[*l]),
         }
     }
 }
@@ -365,7 +370,7 @@ fn model_level_accepts(ev: &MEvent, min: usize, unleveled: Option<usize>) -> boo
     level >= min
 }
 
-const REAL_LEVELS: [emit::Level; 4] = [emit::Level::Debug, emit::Level::Info, emit::Level::Warn, emit::Level::Error];
+static REAL_LEVELS: [emit::Level; 4] = [emit::Level::Debug, emit::Level::Info, emit::Level::Warn, emit::Level::Error];
 
 impl FLeaf {
     /// `calls_before` = how often this leaf was evaluated before (the state of stateful leaves).
